@@ -14,6 +14,7 @@ import shutil
 import sys
 from pathlib import Path
 
+import converttable
 import core
 import workflow
 import projmodel
@@ -253,8 +254,11 @@ def run(ctx: core.Ctx) -> int:
     # Workflow.tla: convert-dep5 interleaved with annotate / download / lint: where the declaration lives, what files are seen to declare
     wf = workflow.stage(ctx, ("C17.", "crash"))
     mc_viol = list(mc_viol) + wf["mc_violations"]
+    # ConvertTable.tla: the preconditions of the command (what .reuse/dep5 is x what stands where REUSE.toml goes), replayed
+    cv = converttable.stage(ctx, ("C17.", "crash"))
+    mc_viol += cv["mc_violations"]
     return ctx.finish(
-        evaluations=len(usable) + len(events) + len(wf["events"]),
+        evaluations=len(usable) + len(events) + len(wf["events"]) + len(cv["events"]),
         distinct_nontrivial=len({"".join(b["pattern"]) for b in usable if any(c in "*?\\" for c in b["pattern"])}),
         rule="languages: every well-formed dep5 pattern over {a . / * ? \\} up to MaxLen (TLC) + seeded longer ones, each "
              "compared with the compiled matcher of its converted glob for ALL paths (product exploration); projects: 1-3 "
